@@ -71,23 +71,65 @@ def specTry (hooks : List Hook) (e : Ev) (s : St) (after : St) (seg : List IEv) 
 def anyCritFail (hooks : List Hook) (seg : List IEv) : Bool :=
   (failuresIn hooks seg).any fun f => f.hook.critical
 
-def specC09Segs (hooks : List Hook) : List Req → St → Bool → List (List IEv) → Bool
-  | [], _, _, [] => true
-  | q :: qs, s, ever, seg :: segs =>
+/-! (6) A failure is not lost by being collected late. A critical call whose await moment is another
+    moment than its trigger hands its result over when the state machine reaches the await point,
+    however long after the call returned (the call's own `timeout` plays no part in that). On the
+    trace: such a call returned with a failure (XE … 1) while its await moment was not in progress —
+    it is OWED; the first time that moment then runs to its finish marker inside a TryTransition, the
+    request fails because of hooks (either this call is collected there, or a critical failure at an
+    earlier weight stopped the pass). A teardown collects (leave_<state>) or cancels what is pending
+    without publishing markers, so it clears the debt; through the API glue the debt is only tracked. -/
+
+def lateHook (hooks : List Hook) (h : Nat) : Option Hook :=
+  (findHook hooks h).filter fun hk => !hk.isTask && hk.critical && decide (hk.await ≠ hk.trig)
+
+/-- …or the same moment, started in its negative-weight pass and awaited in the other pass (the
+    weights of a pass are fixed when the pass begins, so the await weight is visited). -/
+def passHook (hooks : List Hook) (h : Nat) : Option Hook :=
+  (findHook hooks h).filter fun hk => !hk.isTask && hk.critical && decide (hk.await = hk.trig) && decide (hk.tw < 0) && decide (hk.aw ≥ 0)
+
+/-- Walk one segment. `check`: the request is a TryTransition whose result is not a hooks error.
+    Returns (no debt was dodged, debts still open). -/
+def walkOwed (hooks : List Hook) (check : Bool) : List IEv → (open_ : Option String) → (owed : List Hook) → Bool × List Hook
+  | [], _, owed => (true, owed)
+  | .xe h _ true _ _ :: rest, op, owed =>
+    (match lateHook hooks h, passHook hooks h with
+     | some hk, _ => if op == some hk.await.name then walkOwed hooks check rest op owed else walkOwed hooks check rest op (hk :: owed)
+     | none, some hk =>
+       -- returned inside the occurrence of the moment that started it: that occurrence collects it
+       let r := walkOwed hooks check rest op owed
+       ((!(op == some hk.await.name) || !check || !rest.any (isMark hk.await.name true)) && r.1, r.2)
+     | none, none => walkOwed hooks check rest op owed)
+  | .mark m false :: rest, _, owed =>
+    let due := owed.filter fun hk => hk.await.name == m
+    let complete := rest.any (isMark m true)
+    let r := walkOwed hooks check rest (some m) (owed.filter fun hk => hk.await.name != m)
+    ((due.isEmpty || !check || !complete) && r.1, r.2)
+  | .mark _ true :: rest, _, owed => walkOwed hooks check rest none owed
+  | _ :: rest, op, owed => walkOwed hooks check rest op owed
+
+def specC09Segs (hooks : List Hook) : List Req → St → Bool → List Hook → List (List IEv) → Bool
+  | [], _, _, _, [] => true
+  | q :: qs, s, ever, owed, seg :: segs =>
     match obsOf q s seg with
     | none => false
     | some o =>
       let ever' := ever || anyCritFail hooks seg
+      let hooksErr := match resOf seg with | some r => isHooksErr r | none => true
+      let isTry := match q with | .try_ .. => true | _ => false
+      let wk := walkOwed hooks (isTry && !hooksErr) seg none owed
+      let owed' := match q with | .teardown .. => [] | _ => wk.2
       (match q with
        | .try_ e _ _ => specTry hooks e s o.after seg ever'
        | .control .. =>
          -- through the API only clause (4) is checked here (the fallback mixes two transitions)
          (match resOf seg with | some r => ever' || !isHooksErr r | none => false)
        | .teardown .. => true) &&
-      specC09Segs hooks qs o.after ever' segs
-  | _, _, _, _ => false
+      wk.1 &&
+      specC09Segs hooks qs o.after ever' owed' segs
+  | _, _, _, _, _ => false
 
 def specC09 (hooks : List Hook) (reqs : List Req) (tr : ITrace) : Bool :=
-  specC09Segs hooks reqs .STANDBY false (segments tr [])
+  specC09Segs hooks reqs .STANDBY false [] (segments tr [])
 
 end EnvM
